@@ -391,3 +391,18 @@ package resolver
 //@   assert at return#8: result == lastret("(*middleware/resolver.Resolver).Resolve") && lastret("(*middleware/resolver.Resolver).Resolve", 1) == nil
 //@   assert at call internal/dnsutil.SetRcodeWithEDE#2: arg1 == dns.RcodeServerFailure && arg0 == req
 //@   assert at call internal/dnsutil.SetRcodeWithEDE#3: arg1 == dns.RcodeServerFailure && arg0 == req
+//@
+//@ # ---- C12: alias and loop caps. A DNAME follow-up is issued only below the chain cap (10), with the follow-up
+//@ # carrying the response's CD bit; an NS-address lookup for a name already listed twice in the context is refused
+//@ func (*Resolver).checkDname
+//@   abstract
+//@   nosafety all pre
+//@   assert at call (*middleware/resolver.Resolver).internalExchange#1: depth < 10 && calls("context.WithValue") == 1 && arg2 == req
+//@   assert at store dns.MsgHdr.CheckingDisabled#1: value == resp.CheckingDisabled
+//@   assert at return#4: result2 != nil && depth >= 10 && calls("(*middleware/resolver.Resolver).internalExchange") == 0
+//@
+//@ func (*Resolver).checkLoop
+//@   abstract
+//@   nosafety all pre
+//@   assert at return#1: result1 && loopCount > 1
+//@   assert at return#2: !result1
